@@ -3,8 +3,8 @@
     [ast_nodes] are regenerated from the current source on every run. *)
 From Coq Require Import List NArith Bool String.
 From TG.Gen Require Import GenTokens GenLexTables GenGrammar GenAst GenDocGrammar.
-From TG.Model Require Import Chars Lexer Tree GInterp DocGrammar Completion GramAbs GramCert.
-From TG.Proofs Require Import GramSound C04Proofs.
+From TG.Model Require Import Chars Lexer Tree GInterp DocGrammar Completion GramAbs GramCert AstAccess AstAccessInst.
+From TG.Proofs Require Import GramSound AccessProofs C04Proofs.
 Import ListNotations.
 Close Scope string_scope.
 Open Scope list_scope.
@@ -43,6 +43,23 @@ Theorem C04_complete_partial :
   forall txt, In txt doc_cover_sentences -> exists t st, parse_with parse_fuel grammar_prog grammar_entry txt = ParseOk t [] st.
 Proof. exact C04_complete_partial_proof. Qed.
 Print Assumptions C04_complete_partial.
+
+(** Typed accessors.  [kid_frames] = for every node kind the possible multisets of child node kinds, computed from
+    [grammar_prog] by the reflective analysis of model/AstAccess.v (start_node / start_node_at / finish_node on all paths).
+    For every tree node that conforms to one of its frames, every child node - except Error nodes and the known pairs
+    (FieldLet.RangeList; the undocumented <Type> suffix of List) - is returned by a typed accessor of ast.rs, and every
+    accessor returns an order-preserving sub-sequence of the children (source order).
+    NOT proved: that the trees the parser builds conform to [kid_frames] (checked on real trees by checks/C04.py with the
+    extracted [tree_conforms]); full statement without the exceptions is refuted ([C04_accessors_cover_refuted]). *)
+Theorem C04_accessors_reach :
+  forall t f, In (kind_of t, f) kid_frames -> node_conforms f t = true ->
+  forall c, In c (node_children t) -> kind_of c <> S_Error -> pair_in (kind_of t, kind_of c) known_unreachable = false ->
+  exists a, In a (accessors_of (kind_of t)) /\ In c (access t (acc_kinds a) (acc_mode_of a)) /\
+            Sublist (access t (acc_kinds a) (acc_mode_of a)) (node_children t).
+Proof. exact C04_accessors_reach_proof. Qed.
+Print Assumptions C04_accessors_reach.
+Theorem C04_accessors_cover_refuted : covers_all [] kid_frames = false.
+Proof. exact accessors_cover_refuted. Qed.
 
 (** the obligation is not vacuous: without the known accept-deltas the same check FAILS on the current grammar ... *)
 Theorem C04_check_discriminates :
